@@ -81,8 +81,8 @@ PROPS["C07"] = dict(level="proof", bounded=[dict(name="c07_runtime", script="har
            U(PVM, f"{PV}._iteration_step", timeout_ms=30000), U(PVM, f"{PV}.solve", pop=[f"{PV}._iteration_step"], timeout_ms=20000)],
     lean=["periodic_gain_bracket", "periodic_gain_within"], assumptions=SOLVER_ASSUME)
 PROPS["C17"] = dict(level="proof", bounded=[dict(name="c17_runtime", script="harness_solvers.py", args=["--prop", "c17"], wall_s=300)], units=[U(["contracts.matrices"], PB, timeout_ms=20000)], lean=["matrix_backup_eq"], assumptions=SOLVER_ASSUME)
-PROPS["C15"] = dict(level="proof", units=[U(["contracts.problems"], f"{t}.transition", timeout_ms=30000, wall_s=1200) for t in (DM, HX, MJ, FO)], assumptions=[ARITH, ENGINE])
-PROPS["C13"] = dict(level="proof", units=[U(["contracts.probabilities"], f"{DM}.{m}", timeout_ms=20000) for m in ("_convert_gamma_parameters", "_calculate_demand_probabilities")], lean=["telescope"], assumptions=[ARITH, ENGINE])
+PROPS["C15"] = dict(level="proof", bounded=[dict(name="c15_runtime", script="harness_problems.py", args=["--prop", "c15"], wall_s=300)], units=[U(["contracts.problems"], f"{t}.transition", timeout_ms=30000, wall_s=1200) for t in (DM, HX, MJ, FO)], assumptions=[ARITH, ENGINE])
+PROPS["C13"] = dict(level="proof", bounded=[dict(name="c13_runtime", script="harness_problems.py", args=["--prop", "c13"], wall_s=300)], units=[U(["contracts.probabilities"], f"{DM}.{m}", timeout_ms=20000) for m in ("_convert_gamma_parameters", "_calculate_demand_probabilities")], lean=["telescope"], assumptions=[ARITH, ENGINE])
 
 CFGS = ["mdpax.solvers.value_iteration.ValueIterationConfig", "mdpax.solvers.policy_iteration.PolicyIterationConfig",
         "mdpax.solvers.relative_value_iteration.RelativeValueIterationConfig", "mdpax.solvers.periodic_value_iteration.PeriodicValueIterationConfig",
@@ -134,6 +134,14 @@ PROPS["C10"] = dict(level="proof",
            U(["contracts.checkpointing"], f"{CK}._setup_checkpointing"), U(["contracts.logging_configs", "contracts.validators"], "mdpax.core.solver.Solver._setup_config")],
     bounded=[dict(name="c10_runtime", script="harness_ckpt.py", args=["--prop", "c10"], wall_s=400)],
     assumptions=CKPT_ASSUME + ["bit-for-bit equality of arrays through Orbax and tuple-valued parameters through YAML are library behaviour: exercised by the bounded harness (5 solvers x 4 shipped problems), not proved"])
+
+PROPS["C14"] = dict(level="proof",
+    units=[U(["contracts.problem_spaces"], f"{t}.state_to_index", timeout_ms=60000, wall_s=1500) for t in (DM, HX, MJ, FO)]
+        + [U(["contracts.problems"], f"{t}.transition", timeout_ms=30000, wall_s=1200, ignore=["*post.next_state", "*post.reward*", "*post.conservation"]) for t in (DM, HX, MJ, FO)]
+        + [U("contracts.spaces", "mdpax.utils.spaces.create_range_space", timeout_ms=30000)],
+    bounded=[dict(name="c14_runtime", script="harness_problems.py", args=["--prop", "c14"], wall_s=300)],
+    assumptions=[ARITH, ENGINE, "index consistency and sizes are proved per dimension instance with state dimension <= 4 (De Moor m+L-1 <= 4, Hendrix m <= 2, Mirjalili m <= 4, Forest any S) with order limits symbolic; closure of the transition is proved for useful life 1..5 x lead time 1..4; larger dimension counts are covered only by the bounded harness",
+                 "Mirjalili's random-event space is built with a boolean-mask filter (data-dependent length): its size and duplicate-freeness are checked by complete enumeration in the bounded harness only"])
 
 HOOK_COMMITS = []
 NOT_APPLICABLE = {
